@@ -1,7 +1,8 @@
 (* C09 - Every run ends in a solution or an honest, located failure.  Statements and `exact` only. *)
 From Coq Require Import List String Bool NArith.
-From RC Require Import lib.Pep440 lib.Name model.Merge model.Graph model.Solver model.Explain model.Check
+From RC Require Import lib.Pep440 lib.Name model.Merge model.Graph model.Possible model.Solver model.Explain model.Check
                        proofs.SolverP proofs.ChainsP proofs.WitnessSolver proofs.SolverStatements.
+From RC Require Import model.BoundaryTypes gen.BoundaryConsts model.Boundary proofs.BoundaryP.
 Import ListNotations.
 Open Scope string_scope.
 
@@ -34,3 +35,39 @@ Theorem C09_refuted_unbounded_recursion : w_c09_diverges_run 150 = CFatal EFuel.
 Proof. exact c09_diverges_witness. Qed.
 Print Assumptions C09_refuted_unbounded_recursion.
 
+
+(* "A set of constraints is called impossible only if no version could satisfy it" is FALSE:
+   >=1,<1.0.0.5 is called impossible (the upper bound is taken through a 3-component offset)
+   although version 1 satisfies it. *)
+Theorem C09_refuted_is_possible_unsound :
+  let cs := [mkC OGe (mkV 0 [1%N] None None None []) false;
+             mkC OLt (mkV 0 [1%N; 0%N; 0%N; 5%N] None None None []) false] in
+  is_possible cs = PFalse /\ spec_contains cs (mkV 0 [1%N] None None None []) true = true.
+Proof. split; vm_compute; reflexivity. Qed.
+Print Assumptions C09_refuted_is_possible_unsound.
+
+(* The command-line boundary (handler tables generated from solution.py / cmdline.py on every run):
+   whatever exception is raised while a line of a --solution file is turned into graph nodes ends as a
+   diagnostic and exit status 1, never as a traceback; *)
+Theorem C09_unusable_solution_line_is_diagnosed :
+  forall e, is_exception e = true -> solution_line_failure e = Exits 1.
+Proof. exact solution_line_failure_exits_1. Qed.
+Print Assumptions C09_unusable_solution_line_is_diagnosed.
+
+(* a ValueError-family failure (RepositoryInitializationError included) anywhere in build_repo ends the same way; *)
+Theorem C09_unusable_repository_argument_is_diagnosed_partial :
+  forall e, value_family e = true -> build_repo_failure e = Exits 1.
+Proof. exact build_repo_value_failure_exits_1. Qed.
+Print Assumptions C09_unusable_repository_argument_is_diagnosed_partial.
+
+(* the failures the solver reports on purpose end as a diagnostic and exit status 1; *)
+Theorem C09_reported_failures_exit_1 :
+  forall e, (e = ENoCandidate \/ e = EMetadata) -> compile_failure e = Exits 1.
+Proof. exact compile_reported_failure_exits_1. Qed.
+Print Assumptions C09_reported_failures_exit_1.
+
+(* but nothing in compile_main catches an internal error that leaves perform_compile (the internal-error known findings of C09) *)
+Theorem C09_refuted_internal_error_reaches_the_user :
+  compile_failure EAssertionError = Propagates EAssertionError /\ compile_failure EKeyError = Propagates EKeyError.
+Proof. exact compile_internal_error_escapes. Qed.
+Print Assumptions C09_refuted_internal_error_reaches_the_user.
